@@ -40,12 +40,36 @@ pub enum Watcher {
 	Poll(Duration),
 }
 
+/// Verification hook (guard: cargo feature `verif-hooks`): lets a harness substitute the OS watcher.
+#[cfg(feature = "verif-hooks")]
+#[doc(hidden)]
+pub mod verif {
+	use std::sync::Mutex;
+
+	/// Builds the watcher to use instead of the notify back-end.
+	pub type Factory = Box<
+		dyn Fn(super::Watcher, Box<dyn notify::EventHandler>) -> notify::Result<Box<dyn notify::Watcher + Send>>
+			+ Send,
+	>;
+
+	/// When set, `Watcher::create` calls this instead of notify.
+	pub static FACTORY: Mutex<Option<Factory>> = Mutex::new(None);
+}
+
 impl Watcher {
 	fn create(
 		self,
 		f: impl notify::EventHandler,
 	) -> Result<Box<dyn notify::Watcher + Send>, CriticalError> {
 		use notify::{Config, Watcher as _};
+
+		#[cfg(feature = "verif-hooks")]
+		if let Some(factory) = verif::FACTORY.lock().expect("verif factory lock").as_ref() {
+			return factory(self, Box::new(f)).map_err(|err| CriticalError::FsWatcherInit {
+				kind: self,
+				err: FsWatcherError::Create(err),
+			});
+		}
 
 		match self {
 			Self::Native => {
